@@ -9,6 +9,11 @@ callable table and the canonicalisation of tools/k2.py; adds
            with_query_value / unstoppable / schedule;
   stage 4  value-copy fault points: every value is a tracked k2v2::payload; a script completion `L0:t5` sends one whose
            copy / move throws when stored (model outcome OValT); live payload objects are counted (`plive`, C02).
+  stage 5  throwing connect: `leafc` = a sender whose connect() throws err{78}; placed mostly where the algorithms connect a
+           child late (inside their try); the leaf operation states log their construction (`ctor`, implementation-only)
+           and the C02 monitor balances constructions against destructions, also when the root connect throws.
+           blocks: `alloc` = unifex::allocate(s), `walloc a` = with_allocator(s, counting allocator a); events
+           `alloc a` / `free a` (the harness also checks that a block goes back to the allocator it came from).
   stage 3  more algorithms: let_value_with_stop_source (+ leaves whose callable requests stop on a chosen
            enclosing source), stop_if_requested, just_from, defer, repeat_effect_until (predicate = bit
            list), retry_when (n granted retries), into_variant.
@@ -55,7 +60,11 @@ class Gen2(k2.Gen):
     def expr(self, size, nbound=0):
         r = self.rng
         if size > 1 and r.random() < self.p_new * 0.9:
-            k = r.choice(["lvss", "lvss", "repeat", "retry", "intov", "defer"])
+            k = r.choice(["lvss", "lvss", "repeat", "retry", "intov", "defer", "alloc", "alloc", "walloc"])
+            if k == "alloc":
+                return (k, self.expr(size - 1, nbound))
+            if k == "walloc":
+                return (k, r.randint(1, 2), self.expr(size - 1, nbound))
             if k == "lvss":
                 self.nss += 1
                 sub = self.expr(size - 1, nbound)
@@ -132,6 +141,43 @@ def throw_hits_noexcept(e):
     return any(throw_hits_noexcept(x) for x in subexprs(e))
 
 
+LEAFISH = ("leaf", "leafn", "leafr", "just", "jerr", "jdone", "var", "sched", "stopif", "jfrom")
+
+
+def leaf_positions(e, lazy=False, path=()):
+    """(path, lazy) of every leaf-like node; lazy = the library connects it late, inside an algorithm's try
+    (second child of the sequential kinds, retry_when's trigger, the bodies of defer / on, when_any's children)"""
+    k = e[0]
+    if k in LEAFISH:
+        return [(path, lazy)]
+    out = []
+    for i, x in enumerate(e):
+        if not (i > 0 and isinstance(x, tuple) and x and isinstance(x[0], str) and x[0] not in FNS):
+            continue
+        lz = lazy
+        if k in ("letv", "lete", "letd", "seq", "fin") and i == 2: lz = True
+        if k == "retry" and i == 3: lz = True
+        if k in ("defer", "on", "wany"): lz = True
+        out += leaf_positions(x, lz, path + (i,))
+    return out
+
+
+def place_leafc(rng, e, ident=40):
+    """replace one leaf-like node of e by a sender whose connect throws (mostly in a late-connected position)"""
+    pos = leaf_positions(e)
+    lazy = [p for p, lz in pos if lz]
+    eager = [p for p, lz in pos if not lz]
+    pool = lazy if lazy and (not eager or rng.random() < 0.85) else eager
+    if not pool:
+        return e
+    path = rng.choice(pool)
+    def put(t, path):
+        if not path:
+            return ("leafc", ident)
+        return t[:path[0]] + (put(t[path[0]], path[1:]),) + t[path[0] + 1:]
+    return put(e, path)
+
+
 def lvss_reactive(e, root=True):
     """Finding (runtime, use after destroy): a let_value_with_stop_source operation forwards its child's completion
     at once; if the child completes synchronously from a stop callback that runs inside stopSource_.request_stop()
@@ -176,6 +222,9 @@ def to_model(e):
     if k in ("just", "jerr", "var", "leaf", "leafn"): return "(%s %d)" % (k, e[1])
     if k == "jdone": return "(jdone)"
     if k == "stopif": return "(stopif)"
+    if k == "leafc": return "(leafc %d)" % e[1]
+    if k == "alloc": return "(alloc %s)" % to_model(e[1])
+    if k == "walloc": return "(walloc %d %s)" % (e[1], to_model(e[2]))
     if k == "leafr": return "(leafr %d %d)" % (e[1], e[2])
     if k == "jfrom": return "(jfrom (%s))" % " ".join(map(str, e[1]))
     if k in ("lvss", "repeat"): return "(%s %s %s)" % (k, e[1], to_model(e[2]))
@@ -199,6 +248,9 @@ def _cpp(e, bound, ss):
         return _cpp(x, b, ss)
     k = e[0]
     if k == "stopif": return "k2v2::stopif()"
+    if k == "leafc": return "k2v2::leafc{%d}" % e[1]
+    if k == "alloc": return "unifex::allocate(%s)" % to_cpp(e[1])
+    if k == "walloc": return "k2v2::walloc(%s, %d)" % (to_cpp(e[2]), e[1])
     if k == "leafr": return "k2v2::leafr(%d, %s)" % (e[1], ss[e[2]])
     if k == "jfrom": return "k2v2::jfrom(%s)" % k2.cpp_fn(e[1])
     if k == "lvss":
@@ -312,11 +364,31 @@ def emit_tu(cases):
 
 
 # ------------------------------------------------------------------------------------------ comparison
+# implementation-only markers: they feed the monitors, the model does not predict them
+IMPL_ONLY = ("fin ", "plive ", "blive ", "ctor ", "cthrow ", "dtor_ns ", "sdtor_ns ")
+
+
+def allocs_first(body):
+    """within every batch (`|` markers) the `alloc` events are moved to the front: the library takes the blocks of a whole
+    expression while it connects it, before anything is started; the model connects and starts a subexpression in one
+    step, so it shows the same allocations interleaved with the start events of the same batch"""
+    out, cur = [], []
+    def flush():
+        out.extend(sorted(x for x in cur if x.startswith("alloc ")) + [x for x in cur if not x.startswith("alloc ")])
+    for x in body.split(";"):
+        if x == "|":
+            flush(); cur = []; out.append("|")
+        elif x:
+            cur.append(x)
+    flush()
+    return ";".join(out)
+
+
 def canon(trace):
     """k2.canon (stop cascades sorted, model-only `leak` dropped) after removing the implementation-only
     `fin <id>` completion markers (they feed the monitor)."""
     body, _, tail = trace.partition(" # ")
-    evs = [x for x in body.split(";") if x and x != "|" and not x.startswith("fin ") and not x.startswith("plive ")]
+    evs = [x for x in allocs_first(body).split(";") if x and x != "|" and not x.startswith(IMPL_ONLY)]
     return k2.canon(";".join(evs) + " # " + tail)
 
 
@@ -329,8 +401,8 @@ def canon_weak(trace):
     a multiset of events plus, per leaf, the order of that leaf's own events."""
     body, _, tail = trace.partition(" # ")
     batches, cur = [], []
-    for x in body.split(";"):
-        if not x or x.startswith("fin ") or x.startswith("leak ") or x.startswith("plive "):
+    for x in allocs_first(body).split(";"):
+        if not x or x.startswith("leak ") or x.startswith(IMPL_ONLY):
             continue
         if x == "|":
             batches.append(cur); cur = []
@@ -387,19 +459,29 @@ def monitor(trace, e=None):
             return "C04: %s live stop-callback registration(s) on the receiver's token at completion" % m.group(1)
     if roots:
         after = evs[evs.index(roots[0]) + 1:]
-        bad = [x for x in after if not (x == "skip" or x == "root_dtor" or x.startswith("dtor ") or x.startswith("sdtor ") or x.startswith("plive "))]
+        bad = [x for x in after if not (x == "skip" or x == "root_dtor" or x.startswith("dtor ") or x.startswith("sdtor ") or x.startswith("plive ")
+                                        or x.startswith("blive ") or x.startswith("free ")
+                                        or x.startswith("dtor_ns ") or x.startswith("sdtor_ns "))]
         if bad:
             return "C02: activity after the root completed: %r" % bad[:3]
-    # per-leaf life cycle: start -> (stopseen)* -> fin -> dtor ; a leaf id may be re-started after its dtor
+    # per-leaf life cycle: ctor -> start -> (stopseen)* -> fin -> dtor, or ctor -> dtor_ns when a connect() threw before
+    # the operation was started; a leaf id may be connected again after its operation state was destroyed
     state = {}
+    cthrown = False
     for x in evs:
         w = x.split()
-        if w[0] in ("start", "stopseen", "fin", "dtor", "dtor_early", "dtor_ns") and len(w) > 1:
+        if w[0] == "cthrow":
+            cthrown = True
+        if w[0] in ("ctor", "start", "stopseen", "fin", "dtor", "dtor_early", "dtor_ns", "dtor_dead") and len(w) > 1:
             i = w[1]
             s = state.get(i, "none")
-            if w[0] == "start":
+            if w[0] == "ctor":
                 if s not in ("none", "dead"):
-                    return "C02: leaf %s started while its previous operation state is alive (%s)" % (i, s)
+                    return "C02: leaf %s connected while its previous operation state is alive (%s)" % (i, s)
+                state[i] = "made"
+            elif w[0] == "start":
+                if s != "made":
+                    return "C02: leaf %s started in state %s" % (i, s)
                 state[i] = "run"
             elif w[0] == "stopseen":
                 if s != "run":
@@ -414,8 +496,22 @@ def monitor(trace, e=None):
                 state[i] = "dead"
             elif w[0] == "dtor_early":
                 return "C02: operation state of leaf %s destroyed before the leaf completed" % i
+            elif w[0] == "dtor_dead":
+                return "C02: operation state of leaf %s destroyed a second time" % i
             elif w[0] == "dtor_ns":
-                return "C02: operation state of leaf %s destroyed without having been started" % i
+                if s != "made" or not cthrown:
+                    return "C02: operation state of leaf %s destroyed without having been started (state %s, %s)" % (
+                        i, s, "after a throwing connect" if cthrown else "no connect threw")
+                state[i] = "dead"
+    made = sorted(i for i, s in state.items() if s == "made")
+    if made:
+        return "C02: leaf operation state(s) %s constructed, never started and never destroyed" % ",".join(made)
+    if "connect_throw" in evs:
+        if any(x.startswith("start ") or x.startswith("enq ") or x.startswith("root ") for x in evs):
+            return "C02: activity although connect() of the whole expression threw"
+        alive = sorted(i for i, s in state.items() if s != "dead")
+        if alive:
+            return "C02: leaf operation state(s) %s survive a throwing connect()" % ",".join(alive)
     if "root_dtor" in evs:
         alive = sorted(i for i, s in state.items() if s != "dead")
         if alive:
@@ -423,10 +519,14 @@ def monitor(trace, e=None):
         if sum(1 for x in evs if x.startswith("enq ")) != sum(1 for x in evs if x.startswith("sdtor ")):
             return "C02: schedule() operations started and destroyed differ in number"
     for x in evs:
-        if x.startswith("sdtor_early") or x.startswith("sdtor_ns"):
+        if x.startswith("sdtor_early") or (x.startswith("sdtor_ns") and not cthrown):
             return "C02: schedule() operation state: " + x
+        if x.startswith("free_unknown") or x.startswith("free_foreign"):
+            return "C12: block returned to an allocator it did not come from: " + x
+        if x.startswith("blive ") and x != "blive 0":
+            return "C12: %s block(s) never returned to their allocator" % x.split()[1]
         if x.startswith("plive ") and x != "plive 0":
-            return "C02: %s tracked value object(s) alive after the root operation was destroyed" % x.split()[1]
+            return "C02: %s tracked value object(s) alive after the operation was destroyed" % x.split()[1]
     if e is not None:
         return monitor_ctx(e, evs)
     return ""
@@ -492,6 +592,41 @@ CORPUS = list(k2.CORPUS) + [
     ("swhen", ("on", 100, 1, ("leaf", 0)), ("leaf", 1)),
     ("then", ("add", 1), ("leaf", 0)),
     ("leaf", 0),
+    # stage 5: a sender whose connect() throws, wherever a child is connected late ...
+    ("seq", ("leaf", 0), ("leafc", 40)),
+    ("seq", ("wall", ("leaf", 0), ("leafn", 1)), ("wall", ("leaf", 2), ("leafc", 40))),
+    ("letv", ("leaf", 0), ("swhen", ("leaf", 1), ("leafc", 40))),
+    ("lete", ("leaf", 0), ("then", ("add", 1), ("leafc", 40))),
+    ("letd", ("leafn", 0), ("leafc", 40)),
+    ("fin", ("leaf", 0), ("leafc", 40)),
+    ("fin", ("leaf", 0), ("wall", ("leaf", 1), ("leafc", 40))),
+    ("retry", 2, ("leaf", 0), ("leafc", 40)),
+    ("retry", 1, ("leaf", 0), ("seq", ("leaf", 1), ("leafc", 40))),
+    ("wany", ("leaf", 0), ("leafc", 40)),
+    ("wany", ("leaf", 0), ("wany", ("leaf", 1), ("leafc", 40))),
+    ("wall", ("leaf", 0), ("wany", ("leafc", 40), ("leaf", 1))),
+    ("defer", ("wall", ("leaf", 0), ("leafc", 40))),
+    ("on", 100, 1, ("wall", ("leaf", 0), ("leafc", 40))),
+    ("via", 100, 1, ("seq", ("leaf", 0), ("lvss", 0, ("leafc", 40)))),
+    ("uerr", ("add", 1), ("seq", ("leaf", 0), ("repeat", "b0", ("leafc", 40)))),
+    # blocks
+    ("alloc", ("leaf", 0)),
+    ("walloc", 1, ("wall", ("alloc", ("leaf", 0)), ("walloc", 2, ("alloc", ("alloc", ("leafn", 1)))))),
+    ("seq", ("alloc", ("leaf", 0)), ("alloc", ("leafc", 40))),
+    ("letv", ("leaf", 0), ("walloc", 2, ("alloc", ("wall", ("alloc", ("leaf", 1)), ("leafc", 40))))),
+    ("letv", ("leaf", 0), ("alloc", ("wall", ("leafc", 40), ("alloc", ("leaf", 1))))),
+    ("fin", ("alloc", ("leaf", 0)), ("swhen", ("alloc", ("leaf", 1)), ("alloc", ("leafc", 40)))),
+    ("wany", ("alloc", ("leaf", 0)), ("walloc", 1, ("alloc", ("leafc", 40)))),
+    ("repeat", "b0", ("alloc", ("leaf", 0))),
+    ("intov", ("alloc", ("uerr", ("add", 1), ("leaf", 0)))),
+    ("walloc", 2, ("wall", ("alloc", ("leaf", 0)), ("alloc", ("leafc", 40)))),
+    ("wall", ("alloc", ("leafc", 40)), ("alloc", ("leaf", 0))),
+    ("swhen", ("alloc", ("leaf", 0)), ("walloc", 1, ("alloc", ("lvss", 0, ("leafc", 40))))),
+    # ... and where it is connected by the root connect
+    ("wall", ("leaf", 0), ("leafc", 40)),
+    ("swhen", ("leafc", 40), ("leaf", 0)),
+    ("then", ("add", 1), ("letv", ("leafc", 40), ("leaf", 0))),
+    ("lvss", 0, ("wall", ("leaf", 0), ("seq", ("leafc", 40), ("leaf", 1)))),
     ("defer", ("letv", ("just", 5), ("then", ("add", 1), ("var", 0)))),
     ("letv", ("just", 7), ("defer", ("wall", ("var", 0), ("jfrom", ("add", 2))))),
 ]
@@ -527,6 +662,10 @@ def run_k2v2(chk, n_tus, cases_per_tu, scripts_per_case, size_range=(2, 8), cfg=
                 e = g.expr(rng.randint(*size_range))
                 if not lvss_reactive(e) and not lvalue_lete(e):   # throw_hits_noexcept shapes are allowed since the let_value successor fix in /repo
                     break
+            if rng.random() < 0.25:
+                e = place_leafc(rng, e)
+                if rng.random() < 0.3:
+                    e = place_leafc(rng, e, 41)
             cases.append(e)
         tus.append(cases)
     corpus = CORPUS if corpus is None else corpus
@@ -550,7 +689,8 @@ def run_k2v2(chk, n_tus, cases_per_tu, scripts_per_case, size_range=(2, 8), cfg=
     stats = chk.cov.setdefault("k2v2", {"programs": 0, "scripts": 0, "kinds": {}, "roots_completed": 0,
                                         "compile_failures": 0, "disagreements": 0, "dtor_events": 0,
                                         "callback_order_only": 0, "sched_runs": 0, "ctx_nonzero_events": 0,
-                                        "throwing_values": 0, "throws_observed": 0})
+                                        "throwing_values": 0, "throws_observed": 0,
+                                        "connect_throws": 0, "root_connect_throws": 0, "allocations": 0})
     for (name, cfgn, p, _, _), cases in zip(jobs, tus):
         exe, err = built[(name, cfgn)]
         if err:
@@ -581,6 +721,9 @@ def run_k2v2(chk, n_tus, cases_per_tu, scripts_per_case, size_range=(2, 8), cfg=
             stats["sched_runs"] += io.count("sdtor ")
             stats["throwing_values"] += len(re.findall(r":t\d", sc))
             stats["throws_observed"] += io.count("error 77")
+            stats["connect_throws"] += io.count("cthrow ")
+            stats["allocations"] += io.count("alloc ")
+            stats["root_connect_throws"] += io.count("connect_throw")
             stats["ctx_nonzero_events"] += len(re.findall(r"ctx=[1-9]", io))
             mon = monitor(io, e) if not io.startswith("CRASH") else "crash: " + io[:200]
             ci, cm = (canon(io), canon(mo)) if not io.startswith("CRASH") else (io, mo)
@@ -607,13 +750,47 @@ def run_k2v2(chk, n_tus, cases_per_tu, scripts_per_case, size_range=(2, 8), cfg=
     return stats
 
 
+LVSS_KEY = "k2v2/lvss/stop-source-destroyed-in-request_stop"
+
+
+def lvss_probe(chk):
+    """One deterministic probe for the known finding that the generator steers around (lvss_reactive): harness/k3_lvss_probe.cpp
+    (let_value_with_stop_source in a heap block under finally, child completing from its stop callback) built with ASan.
+    heap-use-after-free in inplace_stop_source::lock / request_stop  =>  violation LVSS_KEY; any other failure of the probe
+    gets another key; a clean run (the defect is fixed) reports nothing."""
+    exe, err = vlib.build_driver("k3_lvss_probe", "asan17")
+    st = chk.cov.setdefault("k2v2_lvss_probe", {})
+    if err:
+        st["result"] = "build-failure"
+        rp = chk.replay_file("k2v2_lvss_probe", {"kind": "build-failure", "error": err[-3000:]})
+        chk.violation("k2v2/lvss/probe-build", rp, no_input=True, text="harness/k3_lvss_probe.cpp does not build: " + err[-300:].replace("\n", " "))
+        return
+    rc, out, errtxt = vlib.sh2([exe], timeout=120, env={"ASAN_OPTIONS": "detect_leaks=0"})
+    txt = out + errtxt
+    rec = {"kind": "k2v2-lvss-probe", "replay": exe, "rc": rc, "output": txt[-4000:],
+           "source": "harness/k3_lvss_probe.cpp", "obligation": "C02/C03: an operation does not touch its state after completing"}
+    if rc == 0 and "completed: done" in out and "AddressSanitizer" not in txt:
+        st["result"] = "clean"
+        return
+    rp = chk.replay_file("k2v2_lvss_probe", rec)
+    if "heap-use-after-free" in txt and "inplace_stop_source" in txt:
+        st["result"] = "use-after-free in inplace_stop_source"
+        chk.violation(LVSS_KEY, rp, text="let_value_with_stop_source: its stop source is destroyed while its own request_stop() runs "
+                      "(heap-use-after-free in inplace_stop_source::lock); replay: " + exe)
+    else:
+        st["result"] = "other failure rc=%d" % rc
+        chk.violation("k2v2/lvss/probe-other", rp, no_input=True, text="lvss probe failed differently: rc=%d %s" % (rc, txt[-300:].replace("\n", " ")))
+
+
 def quick_corpus():
     """two translation units of hand-picked cases touching every stage (the whole CORPUS runs in the thorough tier)"""
     want = ["(swhen (leafn 0) (leafn 1))", "(letv (wall", "(dopt (wall", "(fin (seq", "(tvia 100 2", "(on 100 1 (via", "(wall (sched",
             "(letv (sched", "(lvss 0 (wall (leafr", "(lvss 0 (unstop", "(repeat b001", "(retry 2 (letv", "(retry 1 (wall", "(defer (letv",
             "(wany (wall", "(fin (wany",
             "(fin (leaf 0) (leaf 1))", "(lete (unstop", "(intov (uerr (add 1) (withq", "(swhen (uerr", "(wall (leaf 0) (uerr",
-            "(letv (leaf 0) (then", "(intov (retry", "(dopt (leaf 0))"]
+            "(letv (leaf 0) (then", "(intov (retry", "(dopt (leaf 0))",
+            "(seq (wall (leaf 0) (leafn 1)) (wall (leaf 2) (leafc", "(fin (leaf 0) (wall (leaf 1) (leafc", "(wany (leaf 0) (leafc",
+            "(retry 1 (leaf 0) (seq", "(letv (leaf 0) (walloc 2", "(wall (alloc (leafc", "(walloc 1 (wall (alloc", "(fin (alloc"]
     out = []
     for w in want:
         out += [c for c in CORPUS if to_model(c).startswith(w)][:1]
@@ -622,6 +799,8 @@ def quick_corpus():
 
 def standard_k2v2(chk):
     quick = chk.tier == "quick"
+    if chk.pid == "C04" or os.environ.get("VERIF_LVSS_PROBE"):     # the known finding is reported by one property only
+        lvss_probe(chk)
     c20 = [c for c in CORPUS if "wsav" in to_model(c) or "stopif" in to_model(c)]
     run_k2v2(chk, n_tus=5 if quick else 40, cases_per_tu=8, scripts_per_case=24 if quick else 60,
              corpus=quick_corpus() if quick else None)
